@@ -111,6 +111,132 @@ def make_jobs(ctx, n_prog, depth, unions):
     return jobs
 
 
+# ---- structured classes that INHERIT fields (the class generator has no inheritance): every flavour of slots x base
+INHERIT_SRC = """
+import dataclasses, typing
+from typelib.py import classes
+@dataclasses.dataclass(slots=True)
+class SBase:
+    id: int
+    name: str
+@dataclasses.dataclass(slots=True)
+class SChild(SBase):
+    tags: typing.List[str]
+    note: str = "n"
+@dataclasses.dataclass
+class PBase:
+    id: int = 0
+@dataclasses.dataclass(slots=True)
+class DefChild(PBase):
+    label: str = "x"
+@dataclasses.dataclass
+class PChild(PBase):
+    label: str = "x"
+@dataclasses.dataclass(slots=True)
+class GrandChild(SChild):
+    extra: typing.Optional[int] = None
+@classes.slotted
+@dataclasses.dataclass
+class LibBase:
+    a: int
+@classes.slotted
+@dataclasses.dataclass
+class LibChild(LibBase):
+    b: str = "b"
+class HBase:
+    __slots__ = ("a",)
+    a: int
+    def __init__(self, a):
+        self.a = a
+    def __eq__(self, o):
+        return type(o) is type(self) and all(getattr(o, s) == getattr(self, s) for s in ("a", "b") if hasattr(self, s))
+class HChild(HBase):
+    __slots__ = ("b",)
+    b: str
+    def __init__(self, a, b):
+        super().__init__(a)
+        self.b = b
+class ABase:
+    a: int
+    def __init__(self, a):
+        self.a = a
+    def __eq__(self, o):
+        return type(o) is type(self) and vars(o) == vars(self)
+class AChild(ABase):
+    b: str
+    def __init__(self, a, b="q"):
+        super().__init__(a)
+        self.b = b
+class NBase(typing.NamedTuple):
+    a: int
+    b: str = "b"
+"""
+INHERIT_CASES = [("SChild", "SChild(7, 'n', ['a', 'b'], 'hello')"), ("DefChild", "DefChild(41, 'x')"), ("PChild", "PChild(5, 'five')"),
+                 ("GrandChild", "GrandChild(1, 'g', [], 'n', 3)"), ("LibChild", "LibChild(2, 'two')"), ("HChild", "HChild(3, 'three')"),
+                 ("AChild", "AChild(4, 'four')"), ("list[SChild]", "[SChild(1, 'a', ['t'])]"), ("dict[str, DefChild]", "{'k': DefChild(5, 'five')}"),
+                 ("typing.Optional[HChild]", "HChild(9, 'nine')"), ("tuple[AChild, LibChild]", "(AChild(1), LibChild(2))")]
+
+
+def _inherit_child(case):
+    import sys
+    import types
+    import warnings
+    warnings.simplefilter("ignore")
+    import typelib
+    mod = types.ModuleType("vm_c01_inherit")
+    sys.modules["vm_c01_inherit"] = mod
+    ns = mod.__dict__
+    exec(INHERIT_SRC, ns)
+    t, v = eval(case[0], ns), eval(case[1], ns)
+    out = {}
+    try:
+        m = typelib.marshal(v, t=t)
+        out["wire"] = repr(m)[:200]
+        r = typelib.unmarshal(t, m)
+        out["rt"] = bool(r == v and type(r) is type(v))
+        out["back"] = repr(r)[:200]
+    except Exception as e:  # noqa: BLE001
+        out["rt"], out["back"] = False, f"{type(e).__name__}: {e}"[:200]
+    try:
+        p_ = typelib.unmarshal(t, v)
+        out["pass"] = bool(p_ == v and type(p_) is type(v))
+        out["passed"] = repr(p_)[:200]
+    except Exception as e:  # noqa: BLE001
+        out["pass"], out["passed"] = False, f"{type(e).__name__}: {e}"[:200]
+    try:
+        c = typelib.codec(t)
+        b = c.encode(v)
+        import json as _json
+        out["json_is_marshal"] = _json.loads(b) == typelib.marshal(v, t=t)
+        d = c.decode(b)
+        out["codec"] = bool(d == v and type(d) is type(v) and typelib.decode(t, typelib.encode(v, t=t)) == v)
+        out["decoded"] = repr(d)[:200]
+    except Exception as e:  # noqa: BLE001
+        out["codec"], out["decoded"] = False, f"{type(e).__name__}: {e}"[:200]
+    return out
+
+
+def inheritance_probe(res, which):
+    """which: 'rt' (C01), 'codec' (C02) or 'pass' (C13)."""
+    from .. import iso
+    outs = iso.map_isolated(_inherit_child, INHERIT_CASES, timeout=60.0)
+    for case, o in zip(INHERIT_CASES, outs):
+        if not isinstance(o, dict) or "rt" not in o:
+            raise RuntimeError(f"harness: inheritance probe failed: {case}: {o}")
+        res.case({"ann": case[0], "val": case[1], "family": "inherited-fields"}, True)
+        if which == "rt" and not o["rt"]:
+            res.failures.append({"what": f"unmarshal(T, marshal(v, t=T)) != v for T = {case[0]}, v = {case[1]}: wire {o.get('wire')}, back {o['back']}",
+                                 "input": {"inherit_case": list(case)}})
+        elif which == "pass" and not o["pass"]:
+            res.failures.append({"what": f"unmarshal(T, v) != v for a valid v: T = {case[0]}, v = {case[1]}: got {o['passed']}",
+                                 "input": {"inherit_case": list(case)}})
+        elif which == "codec" and not (o["codec"] and o.get("json_is_marshal")):
+            res.failures.append({"what": f"codec round trip / JSON = marshal fails for T = {case[0]}, v = {case[1]}: decoded {o['decoded']}, "
+                                         f"json_is_marshal={o.get('json_is_marshal')}", "input": {"inherit_case": list(case)}})
+        else:
+            res.count("oracle:inherited-fields-" + which + "-ok")
+
+
 def explore(ctx):
     res = Result()
     res.rule = RULE
@@ -141,6 +267,12 @@ def explore(ctx):
                     break
                 if core.same(r_[what], m_[what], unordered=(what == "mar" and unordered)):
                     res.count(f"{what}:agree:" + ("ok" if "ok" in r_[what] else r_[what]["err"]))
+                elif core._val_has_set(op["val"]) and core._has_positional(inp):
+                    # a multi-element set reaching a positional routine (a fixed / named tuple member of a union that accepts it):
+                    # which element lands where follows the hash order of the real set, the model only has insertion order
+                    res.skipped += 1
+                    res.count(f"{what}:set-order-indeterminate")
+                    break
                 else:
                     res.count(f"{what}:DISAGREE")
                     res.disagreements.append({"what": what, "input": inp, "real": r_[what], "model": m_[what]})
@@ -169,6 +301,7 @@ def explore(ctx):
                                          "finding": "crossWireUnion"})
             else:
                 res.count("oracle:roundtrip-ok(union)")
+    inheritance_probe(res, "rt")
     return res
 
 
@@ -197,6 +330,11 @@ def witness(fid):
 
 def replay(failure):
     inp = failure["input"]
+    if "inherit_case" in inp:
+        from .. import iso
+        o = iso.map_isolated(_inherit_child, [tuple(inp["inherit_case"])], timeout=60.0)[0]
+        print(json.dumps({"case": inp["inherit_case"], "real": o}, indent=1))
+        return not (isinstance(o, dict) and o.get("rt"))
     job = {"prog": inp["prog"], "ops": [{"op": "rt", "ty": inp["ty"], "val": inp["val"]}]}
     real, model = core.run_jobs([job])
     r_ = real[0][0]
